@@ -4,6 +4,18 @@ claimed / not_applicable partition is always consistent)."""
 import json
 
 CLAIMS = {
+ 'C03': dict(
+   text='Static freshness/ownership analysis of every function in petl.transform.* / petl.util.* (thorough: + petl.io.*): '
+        'every in-place mutation (mutator method, subscript store/delete, container +=, heapq/shuffle/insort, call of a '
+        'petl function that mutates its parameter) must target an object allocated by the same function, and an object '
+        'handed out by `yield x` must not be mutated afterwards. Holds for all inputs and all partial iterations because '
+        'it is decided per construct, not per sampled table.',
+   ref='DESIGN.md §4 C03',
+   note='up to aliasing through user callbacks and unresolved callees (receivers of unknown provenance are reported '
+        'as undecided); __setitem__-style user mutators of a view specification and the documented `dictionary=` '
+        'output parameter of the lookup functions are outside the property',
+   technique='flow-sensitive freshness typestate (FRESH / source-owned / YIELDED) with interprocedural '
+             'MUTATES(param) summaries'),
  'C20': dict(
    text='Static typestate analysis of every function in petl.transform.* / petl.util.*: decides that no '
         'exception is caused by the absence of data rows (data-state next() guarded, pre-loop sentinels not used '
